@@ -7,12 +7,18 @@ Open Scope nat_scope.
 Open Scope list_scope.
 
 (* ---- keys ---- *)
+(* both fields are compared (in whatever order the source lists them) *)
+Lemma equals_fields_complete : In FieldName equals_fields /\ In FieldGroup equals_fields.
+Proof. split; vm_compute; auto. Qed.
+
 Lemma key_equals_eq : forall a b, key_equals a b = true <-> a = b.
 Proof.
-  intros [g1 n1] [g2 n2]. unfold key_equals. change equals_fields with [FieldName; FieldGroup].
-  cbn [forallb key_field k_name k_group fst snd]. rewrite !andb_true_iff, !String.eqb_eq. split.
-  - intros [-> [-> _]]. reflexivity.
-  - intros H. injection H as -> ->. auto.
+  intros [g1 n1] [g2 n2]. unfold key_equals. rewrite forallb_forall. split.
+  - intros H. destruct equals_fields_complete as [Hn Hg].
+    pose proof (H _ Hn) as E1. pose proof (H _ Hg) as E2.
+    cbn [key_field k_name k_group fst snd] in E1, E2. apply String.eqb_eq in E1. apply String.eqb_eq in E2.
+    subst. reflexivity.
+  - intros H f _. injection H as -> ->. apply String.eqb_refl.
 Qed.
 
 Lemma key_eqb_eq : forall a b, key_eqb a b = true <-> a = b.
